@@ -403,9 +403,22 @@ def tag_pair_rules(ck, P, rule="R-TABLE-INDEX"):
                     ix = [z for z in ir.walk_nodes(lets[h]) if z.get("k") == "index"][0]
                     roles[ir.place_str(y["recv"])] = A.ev(ix["i"], env)
         import re as _re
-        okd = start == 0 and bool(_re.match(r"^\(len\(.+\) / 2\)$", end)) and len(terms) == 2 and A.eq(terms[0], want[0]) and A.eq(terms[1], want[1]) and \
-            A.eq(roles.get("self.key"), want[0]) and A.eq(roles.get("self.val"), want[1])
-        why = "range %s..%s, indices %s, key from %s, value from %s" % (start, end, [A.show(t) for t in terms], A.show(roles.get("self.key")), A.show(roles.get("self.val")))
+        if it.get("k") == "mcall" and it.get("name") == "chunks_exact" and (it.get("q") or "").endswith("chunks_exact") and len(iv) == 1 and lp[0]["pat"].get("k") == "bind":
+            # the same pairs written as `for pair in tag_ids.chunks_exact(2)`: key = pair[0], value = pair[1] (a trailing odd id is ignored, as with len / 2)
+            tp = [x for p_ in b["params"] for x in ir.pat_binds(p_) if x["name"] not in ("self", "__self")]
+            n2 = ir.const_eval(it["a"][0], {}) if it.get("a") else None
+            of_pair = all(ir.local_hid(y["e"]) == iv[0]["hid"] for y in idx)
+            c = [ir.const_eval(y["i"], {}) for y in idx]
+
+            def role(pl):
+                t_ = roles.get(pl)
+                return A.show(t_) if t_ is not None else None
+            okd = n2 == 2 and len(tp) == 1 and ir.local_hid(it["recv"]) == tp[0]["hid"] and of_pair and c == [0, 1] and role("self.key") == A.show(A.const(0)) and role("self.val") == A.show(A.const(1))
+            why = "chunks_exact(%s), indices %s, key from %s, value from %s" % (n2, c, role("self.key"), role("self.val"))
+        else:
+            okd = start == 0 and bool(_re.match(r"^\(len\(.+\) / 2\)$", end)) and len(terms) == 2 and A.eq(terms[0], want[0]) and A.eq(terms[1], want[1]) and \
+                A.eq(roles.get("self.key"), want[0]) and A.eq(roles.get("self.val"), want[1])
+            why = "range %s..%s, indices %s, key from %s, value from %s" % (start, end, [A.show(t) for t in terms], A.show(roles.get("self.key")), A.show(roles.get("self.val")))
     ck.check(okd, rule, b["q"] + "|pairs", "decode: for i in 0..len/2: key = keys[tag_ids[2i]], value = values[tag_ids[2i + 1]]", "tags are not decoded as (key, value) index pairs (%s)" % why, ir.loc(b))
     b = enc[0]
     lp = [n for n in ir.walk_nodes(b["body"]) if n.get("k") == "for"]
